@@ -461,7 +461,7 @@ func (g *gen) restartWorkload() {
 	var evs []ev
 	for i, n := 0, r.Range(1, 3); i < n; i++ {
 		at := r.Range(4, nBlocks-2)
-		evs = append(evs, ev{at: at, kind: "ckpt"})
+		evs = append(evs, ev{at: at, kind: "ckpt", d: r.Pick(3, 2, 2)})
 		gap := []int{0, 0, 1, 1, 2, 3, 4, 6, 8, 12}[r.Intn(10)]
 		mode := 0
 		if r.Bool(0.3) {
